@@ -59,7 +59,7 @@ def model_check(ctx):
     if th:
         box = dict(starts=range(41), lens=range(81))
     else:
-        box = dict(starts=range(13), lens=list(range(41)) + [47, 48, 49, 63, 64, 65, 79, 80])
+        box = dict(starts=range(10), lens=list(range(41)) + [47, 48, 49, 63, 64, 65, 79, 80])
     r = ctx.tlc('DumpMC', 'mc_bin.cfg', cfg_text=mc_cfg(**box), timeout=3000 if th else 600, name='mc_binaries')
     ctx.tlc_expect_ok(r, 'as-built dump of a binary refines the requirement')
     ctx.cov['mc_constants'] = dict(start_bits='0..%d' % (len(box['starts']) - 1), length_bits=S(box['lens']) if not th else '0..80', line_bytes=ALL_L,
@@ -185,7 +185,7 @@ def dump_arms(ctx, binp):
     ctx.tlc_expect_ok(tg, 'DecodeTree GEN')
     progs = tg.printed
     ctx.cov['tlc_tree_programs_emitted'] = len(progs)
-    cap = 20000 if th else 1000       # every program is dumped twice (whole tree, one inner value); a seeded sample of the emitted family
+    cap = 20000 if th else 800       # every program is dumped twice (whole tree, one inner value); a seeded sample of the emitted family
     if len(progs) > cap:
         progs = random.Random(ctx.seed).sample(progs, cap)
     pp = os.path.join(ctx.build, 'tree_progs.ndjson')
